@@ -20,7 +20,7 @@ import os
 VERIF = os.path.dirname(os.path.dirname(os.path.abspath(__file__)))
 REF_FILE = os.path.join(VERIF, 'reference', 'signatures.json')
 # statement-level edits (insertions + deletions + replacements) up to which a function counts as "the same arrangement"
-MAX_LOCAL_EDITS = 3
+MAX_LOCAL_EDITS = 0
 MAX_LOCAL_FRACTION = 0.25
 
 
@@ -104,4 +104,13 @@ def build(program):
   for mi in program.modules.values():
     for q, fi in mi.all_functions.items():
       out[key(mi.rel, q)] = signature(fi.node)
+  return out
+
+
+def build_locals(program):
+  """The names occurring in every function (so that a *new* single-use temporary can be recognised and folded away)."""
+  out = {}
+  for mi in program.modules.values():
+    for q, fi in mi.all_functions.items():
+      out[key(mi.rel, q)] = sorted(set(n.id for n in ast.walk(fi.node) if isinstance(n, ast.Name)))
   return out
